@@ -77,10 +77,13 @@ CLAIMED.update({
              text="Decides the agreement clauses: per structure identical write/read operation sequences and ovmb_size; equality with the .ksy field sequences, magic/reserved contents and enum tables; little-endian byte pairs on both sides; suitable_int_encoding thresholds = limits of the narrowed types and each chunk's encoding chosen from the count of the kind it writes; all three topology readers add handle_offset; typeName specialisations <-> readProperty branches with the same T, entity strings; unique codec names with matching T; every writer refuses pending deletions before its first output; type detection looks at all faces and all cells. Not decided: value equality after a round trip, floating-point printing.",
              design="3/C06"),
 })
+CLAIMED.update({
+ "C10": dict(technique="static analysis: name-independent canonical forms of the lookup functions (parameters as positions, single-definition locals inlined, range-for variables as each(range)), guard facts at every hit return, parameter-dependence closure, candidate-loop exit classification on the clang CFG",
+             text="Decides structural necessary conditions of soundness/completeness of the 15 lookup functions (incl. the deprecated forwarding names): every hit depends on every argument; a loop over candidates is left only through its bound or with a hit; a miss returns the invalid constant / false after all loops; per function the facts under which a hit is returned: outgoing halfedge of a with to(h)=b; (from,to)=(a,b) returns h and (b,a) returns its opposite over the halfedges of the halffaces of the cell; halfedges (v0,v1),(v1,v2) both valid and passed in order; halfface around hes[0] containing hes[1]; next(h,F)/adjacent halfface forms with v2; extensive: equal sizes, offset = position of (v0,v1), from(hes[(i+offset)%size]) compared with vs[i] for all i; get_halfface_vertices: one lap in circulator order, >= 2 lap circulator advanced to the start vertex then n pushes, from-vertex of the halfedge; is_incident; n_vertices_in_cell via std::set. Not decided: equality with a brute-force search on every reachable mesh, the not-deleted clause (rests on C01's unlink rules).",
+             design="3/C10, 2/K"),
+})
 NOT_YET = {}
-NA = {
- "C10": "soundness/completeness of the lookup queries against a brute-force search is an equality over runtime values of small search loops; no structural necessary condition exists that is not a brittle proxy (DESIGN 3/C10)",
-}
+NA = {}
 props = [json.loads(l) for l in open(os.path.join(V, "properties.jsonl"))]
 checks, na = [], []
 for p in props:
